@@ -180,7 +180,12 @@ func serializeURL(value string) string {
 		case ')':
 			mapped = `\)`
 		default:
-			mapped = string(c)
+			if c < 0x20 || c == 0x7F {
+				// non-printable characters are not allowed in unquoted URLs
+				mapped = fmt.Sprintf("\\%X ", c)
+			} else {
+				mapped = string(c)
+			}
 		}
 		chuncks.WriteString(mapped)
 	}
